@@ -79,6 +79,11 @@ CHECKS = {
          "Held on the executions observed: 20 commands x enabled:false x carriers; 23 threshold/switch sweeps; precedence yaml>json>pyproject and CLI options vs file values and per-language overrides; top-level ignore in every carrier; ten invalid values and eight unparsable-file variants; evidence counts each case class.",
          "Trusted: the staircase project (vlib/gen/staircase.py) has constructs on both sides of each swept value; 'invalid' = rejected by the linter's own validation through .thailint.yaml (plus the documented non-positive limits).",
          "DESIGN.md section 4 C05"),
+
+ "C11": ("runtime monitoring: failure tap (repository hook H1: every exception the orchestrator swallows, self-tested each run with an injected rule failure), process monitor (exit status, signals, tracebacks, faulthandler), watchdog with confirmation run, and sibling-result comparison, over mutated and blown-up inputs placed among healthy files",
+         "Held on the executions observed: 19 byte-level/grammar-aware mutators applied 1-4 in sequence to repository sources, trigger files and generated programs in py/ts/js/rs; nesting/length blow-ups of six kinds at four depths; 10^3-10^4 functions; unknown extensions; every registered rule runs on every offending file (lint_directory), CLI layer sampled over commands/formats/--parallel; evidence counts mutator classes, swallowed events and sibling comparisons.",
+         "Trusted: hook H1 (self-tested); sibling comparison excludes cross-file rules; TypeScript DRY analysis is quadratic, so the many-functions case is capped at 300 functions for ts/js (slow is not a hang).",
+         "DESIGN.md section 4 C11"),
 }
 PENDING = {}
 props = [json.loads(l) for l in open(os.path.join(HERE, "properties.jsonl"))]
